@@ -57,6 +57,9 @@ def tails(rng, tier, label_len):
     pad = max(0, k - label_len - 1 - rng.randrange(len(ch)))
     body = b"\n" + b" " * max(0, pad - 2) + ch * rng.randint(40, 3000)
     yield "multibyte-straddling-block-boundary", body + b"\xff\xfe\x00" + b"z" * 30
+    # more than one read-ahead chunk of harmless padding, then binary data
+    yield "padding-then-binary", rng.choice((b" ", b"\x00", b"\n")) * \
+        rng.choice((8200, 9000, 20000)) + b"\xff\xfe\x00\x81" + b"\x00" * 50
     # first undecodable byte near a buffer boundary of the text-mode reader
     k = rng.choice((4096, 8192, 16384))
     pad = max(0, k - label_len - rng.choice((-2, -1, 0, 1, 2, 3)))
@@ -185,6 +188,42 @@ def label_case(rec, pvl, key, tier, tmp, holder):
                 rec.violation(CHECK, reader, "entry-point-differs-from-loads",
                               feats, wit, f"{d}: got {[k for k, _ in list(m)]} "
                                           f"for {[k for k, _ in list(base)]}"[:300])
+        # a stream the caller has already read from (a header line in front of
+        # the label): load() starts where the caller left the stream
+        header = b"CCSD3ZF0000100000001NJPL3IF0PDS200000001 = SFDU_LABEL\n"
+        path2 = os.path.join(tmp, "with_header.lbl")
+        with open(path2, "wb") as f:
+            f.write(header + data)
+        for rname, mode in (("load(text stream, after a header line was read)", "r"),
+                            ("load(binary stream, after a header line was read)", "rb")):
+            try:
+                with open(path2, mode) as f:
+                    try:
+                        f.readline()
+                    except UnicodeDecodeError:
+                        continue     # the caller's own read already fails
+                    rec.count(f"route[{rname}]")
+                    with common.cpu_limit(120):
+                        m = pvl.load(f, **({} if mk is None else {"parser": mk()}))
+            except common.CaseTimeout:
+                rec.inconc(f"CPU budget exceeded in {rname} ({tname})")
+                continue
+            except Exception as e:
+                rec.violation(CHECK, reader, "entry-point-raised",
+                              {"route": rname, "tail": tname, "reader": reader,
+                               "exc": type(e).__name__, "tail_is_valid_utf8": decodable},
+                              {"seed": key, "label": text, "sep": repr(sep),
+                               "tail_class": tname, "route": rname, "reader": reader},
+                              f"{type(e).__name__}: {e}"[:300])
+                continue
+            if snapshot(m) != base_snap:
+                rec.violation(CHECK, reader, "entry-point-differs-from-loads",
+                              {"route": rname, "tail": tname, "reader": reader,
+                               "tail_is_valid_utf8": decodable},
+                              {"seed": key, "label": text, "sep": repr(sep),
+                               "tail_class": tname, "route": rname, "reader": reader},
+                              f"got {[k for k, _ in list(m)]} for "
+                              f"{[k for k, _ in list(base)]}"[:300])
         # trace monitor on the decodable tails (a str can be handed to the parser)
         if decodable or True:
             s = label_bytes.decode("utf-8") + sep.decode("ascii") + \
@@ -397,7 +436,9 @@ def shard(i, n, tier, seed, rec, hb):
 def finish_kwargs(rec, tier):
     req = ["trace_runs", "no_token_after_END_confirmed", "tail[random-binary]",
            "tail[utf8-text]", "tail[nuls]", "tail[undecodable-at-buffer-boundary]",
-           "tail[multibyte-straddling-block-boundary]",
+           "tail[multibyte-straddling-block-boundary]", "tail[padding-then-binary]",
+           "route[load(text stream, after a header line was read)]",
+           "route[load(binary stream, after a header line was read)]",
            "multibyte_character_of_the_label_at_a_block_boundary",
            "tail[none]", "route[load(text stream)]", "route[load(binary stream)]",
            "route[loadu(file URL)]", "route[loads(bytes)]", "route[loads(str)]",
